@@ -35,6 +35,8 @@ type Opts struct {
 	RealSym bool
 	// Transport, when set, is the HTTPTransport plug-in (used by the driver's own URL fetch and by symbolz).
 	Transport http.RoundTripper
+	// ErrDelay makes UI.PrintErr slow (a terminal that blocks): widens windows around error reporting.
+	ErrDelay time.Duration
 }
 
 // Result is everything observable at the plug-in boundaries.
@@ -280,6 +282,9 @@ func (u *ui) Print(args ...interface{}) {
 	u.mu.Unlock()
 }
 func (u *ui) PrintErr(args ...interface{}) {
+	if u.o.ErrDelay > 0 {
+		time.Sleep(u.o.ErrDelay)
+	}
 	u.mu.Lock()
 	u.res.UIErr = append(u.res.UIErr, fmt.Sprint(args...))
 	u.mu.Unlock()
